@@ -613,6 +613,23 @@ def t_loop_progress(facts, res, tier):
                         sample["measures"] = sorted(set(found) | {"fresh-name:%s" % grows[0]})
                         res.inst(rid, True, sample)
                         continue
+            # filling up to a length: `while v.len() < n { ..; v.push(..); }` - the push is a statement of the body itself (taken on every
+            # pass), nothing in the body shrinks v or assigns n: the distance n - v.len() decreases by at least one per pass
+            if node["k"] == "while" and not (ok_ft and ok_cont):
+                ct = expr_text(node["cond"]).replace(" ", "").strip("()")
+                mm = re.match(r"^(\w+)\.len\(\)(<|<=|!=)(\w+)$", ct)
+                if mm:
+                    vec, bound = mm.group(1), mm.group(3)
+                    top = node["body"].get("stmts", [])
+                    pushes = [x for x in top if x.get("k") == "mcall" and x["method"] in ("push", "push_str", "push_back") and expr_text(x["recv"]).replace(" ", "") == vec]
+                    body_nodes = list(walk(node["body"]))
+                    shrinks = [x for x in body_nodes if x.get("k") == "mcall" and x["method"] in ("pop", "clear", "truncate", "remove", "drain", "retain", "split_off") and expr_text(x["recv"]).replace(" ", "") == vec]
+                    rebinds = [x for x in body_nodes if x.get("k") in ("assign", "assignop") and expr_text(x["l"]).replace(" ", "") in (vec, bound)]
+                    exits = [x for x in body_nodes if x.get("k") == "continue"]
+                    if pushes and not shrinks and not rebinds and not exits and (mm.group(2) != "!=" or len(pushes) == 1):
+                        sample["measures"] = sorted(set(found) | {"fill-to-length:%s.len()->%s" % (vec, bound)})
+                        res.inst(rid, True, sample)
+                        continue
             res.inst(rid, True, sample)
             if rearmed:
                 # needs a bounded pass counter
